@@ -347,6 +347,20 @@ def w_F28(ctx):
     return None
 
 
+def w_F29(ctx):
+    # a whole crossing of (within-trial factor over an uncrossed source) x (transition), then a leftover round whose
+    # length equals the number of non-complex crossing instances: MinimumTrials(7) in REPEAT mode
+    s3 = _sf(0, ["x", "y", "z"])
+    d = {"id": 1, "name": "f1", "window": {"deps": [0], "width": 1, "stride": 1, "start": None, "kind": "within"},
+         "levels": [{"name": "isx", "w": 1, "table": [0, 1, 0, 0]}, {"name": "notx", "w": 1, "table": [0, 0, 1, 1]}]}
+    rep = [1 if (k // 4) == (k % 4) and k % 4 != 0 else 0 for k in range(16)]
+    tr = {"id": 2, "name": "f2", "window": {"deps": [0], "width": 2, "stride": 1, "start": None, "kind": "transition"},
+          "levels": [{"name": "rep", "w": 1, "table": rep}, {"name": "sw", "w": 1, "table": [1 - x for x in rep]}]}
+    desc = {"factors": [s3, d, tr], "block": {"k": "multicross", "design": [0, 1, 2], "crossings": [[1, 2]],
+            "cs": [{"k": "MinimumTrials", "n": 7}], "rcc": True, "mode": "repeat", "align": "equal preamble"}}
+    return _design(ctx, desc, ["exhaust"], strat="RandomGen")
+
+
 WITNESS = {k[2:]: v for k, v in globals().items() if k.startswith("w_F")}
 
 
